@@ -488,6 +488,11 @@ def buffermem_model(ctx):
     st = ctx.tlc_only("BufferMem", "BufferMem.cfg", workers=16, expect_ok=False, consts=dict(DefectM='"nested_abandon"', MaxOpsM=5, MaxArr=18))
     ctx.control("BufferMem with the pre-repair lending protocol (nested_abandon) must violate the refinement invariant",
                 (not st["ok"]) and "InvRefines is violated" in st["text"])
+    # the discipline behind the loan: nobody uses the lender's stale struct meanwhile.  A builder that printed in place
+    # (instead of formatting into a printer of its own) and met itself among its operands would (seeded change C01-19)
+    st = ctx.tlc_only("BufferMem", "BufferMem.cfg", workers=16, expect_ok=False, consts=dict(DefectM='"observe_while_lent"', MaxOpsM=5, MaxArr=18))
+    ctx.control("BufferMem with an accessor on the lender's stale struct during a loan (observe_while_lent) must violate the refinement invariant",
+                (not st["ok"]) and "InvRefines is violated" in st["text"])
     if ctx.tier == "thorough":
         for d in ("accessor_in_place", "take_keeps_array", "string_aliases"):
             st = ctx.tlc_only("BufferMem", "BufferMem.cfg", workers=16, expect_ok=False, consts=dict(DefectM='"%s"' % d))
